@@ -271,7 +271,7 @@ def execute(history):
                 except Exception as e:  # noqa
                     msg = str(e)
                     kind = "non_leaf_deepcopy" if ("graph leaves" in msg or "view was created in no_grad mode" in msg) else ("local_object" if "local object" in msg or "Can't pickle" in msg else type(e).__name__)
-                    out.violate("snapshot_failed", i, "%s of %s raised %s(%s)" % (how, entry, type(e).__name__, msg[:160]), exc_kind=kind, **cls)
+                    out.violate("snapshot_failed", i, "%s of %s raised %s(%s)" % (how, entry, type(e).__name__, msg[:160]), exc_kind=kind, model_kind=("grid_module" if "Grid" in entry or "grid" in entry.lower() else "module"), defined_in=core.local_object_site(msg) if kind == "local_object" else "n/a", **cls)
                     sketch.append(tag + "!")
                     continue
                 if how in ("pickle", "deepcopy"):
